@@ -120,18 +120,18 @@ Lemma add_in_type_dir_visible : forall ty idn m o t t',
 Proof.
   intros ty idn m o. induction t as [|[d es] rest IH]; intros t' H Hv Hm.
   - cbn [add_in_type_dir] in H. apply bind_ok in H. destruct H as [es' [He H]]. inversion H; subst.
-    intros d0 es0 [E | []] e Hin. inversion E; subst.
+    intros d0 es0 [E | []] e Hin. injection E as Ed Ees. subst d0 es0.
     eapply add_entry_visible; eauto; intros e1 [].
   - cbn [add_in_type_dir] in H. destruct (ustr_eqb d ty) eqn:E.
     + apply ustr_eqb_eq in E. subst d. apply bind_ok in H. destruct H as [es' [He H]]. inversion H; subst.
       intros d0 es0 [E0 | Hin] e Hine.
-      * inversion E0; subst. eapply add_entry_visible; eauto. intros e1 He1. apply (Hv ty es); auto. left; auto.
+      * injection E0 as Ed Ees. subst d0 es0. eapply add_entry_visible; eauto. intros e1 He1. apply (Hv ty es); auto. left; auto.
       * apply (Hv d0 es0); auto. right; auto.
     + apply bind_ok in H. destruct H as [r [Hr H]]. inversion H; subst.
       assert (Hv' : all_visible rest) by (intros d0 es0 Hin; apply (Hv d0 es0); right; auto).
       specialize (IH r Hr Hv' Hm).
       intros d0 es0 [E0 | Hin] e Hine.
-      * inversion E0; subst. apply (Hv d0 es0); auto. left; auto.
+      * injection E0 as Ed Ees. subst d0 es0. apply (Hv d es); auto. left; auto.
       * apply (IH d0 es0); auto.
 Qed.
 
